@@ -371,6 +371,21 @@ func runC17(c *fw.Ctx, idx int) fw.Result {
 			if ef.ReverseComplement().Decode().Seq != upperStr(rc) {
 				res.Fail("encoded-vs-text-revcomp", "encoded and text reverse complements disagree on "+s, nil, nil)
 			}
+			// the table functions are pure: they neither change their argument nor depend on
+			// earlier calls (decode the same encoded slice twice, complement it afterwards)
+			{
+				before := append([]byte{}, ef.Seq...)
+				d1 := encoding.DecodeToString(ef.Seq)
+				d2 := encoding.DecodeToString(ef.Seq)
+				d3 := ef.Decode().Seq
+				ef.Complement()
+				ef.ReverseComplement()
+				ef.CalculateBaseContent()
+				res.Evals++
+				if d1 != upperStr(s) || d2 != d1 || d3 != d1 || string(before) != string(ef.Seq) {
+					res.Fail("argument-modified", fmt.Sprintf("decoding / complementing an encoded sequence twice does not give the same result or changes the argument: first %q, second %q, record-level %q (input %s)", d1, d2, d3, s), nil, nil)
+				}
+			}
 			// results are values: a later call must not change an earlier result
 			keep1, keep2 := ef.Complement(), ef.ReverseComplement()
 			want1, want2 := keep1.Decode().Seq, keep2.Decode().Seq
